@@ -300,7 +300,7 @@ pub fn run(ctx: &Ctx) {
         ctx.run_list("hfs_product", &v, true, oracle);
     }
     // every single edit of a sample of valid names
-    let n_names = ctx.tier.pick(300usize, 1500);
+    let n_names = ctx.tier.pick(600usize, 3000);
     let mut samples: Vec<String> = Vec::new();
     for k in 0..n_names {
         let x = mix(ctx.seed, k as u64) as usize;
@@ -351,7 +351,7 @@ pub fn run(ctx: &Ctx) {
     }
     ctx.run_prop(
         "random_strings",
-        ctx.tier.pick(60_000, 1_000_000),
+        ctx.tier.pick(200_000, 3_000_000),
         || {
             prop_oneof![
                 2 => "\\PC{0,60}",
